@@ -320,10 +320,32 @@ func (f CallableFunctionSchema) Call(arguments []any) (any, error) {
 			gotArgs,
 		), false)
 	}
-	// Convert to reflect values
+	// Convert to reflect values. reflect.Value.Call panics on an untyped nil and on a value that is not assignable
+	// to the parameter, so both are handled here: nil becomes the typed nil of a parameter that can hold one, and
+	// anything that does not fit the parameter is an invalid call.
+	handlerType := f.Handler.Type()
 	args := make([]reflect.Value, gotArgs)
 	for i := 0; i < gotArgs; i++ {
+		paramType := handlerType.In(i)
+		if arguments[i] == nil {
+			switch paramType.Kind() {
+			case reflect.Interface, reflect.Pointer, reflect.Map, reflect.Slice, reflect.Func, reflect.Chan:
+				args[i] = reflect.Zero(paramType)
+				continue
+			default:
+				return nil, NewFunctionCallError(fmt.Errorf(
+					"incorrect type for argument %d sent to function with ID '%s'. Expected %s, got nil",
+					i, f.ID(), paramType,
+				), false)
+			}
+		}
 		args[i] = reflect.ValueOf(arguments[i])
+		if !args[i].Type().AssignableTo(paramType) {
+			return nil, NewFunctionCallError(fmt.Errorf(
+				"incorrect type for argument %d sent to function with ID '%s'. Expected %s, got %s",
+				i, f.ID(), paramType, args[i].Type(),
+			), false)
+		}
 	}
 	result := f.Handler.Call(args)
 	gotReturns := len(result)
